@@ -39,7 +39,6 @@ EXHAUSTIVE = {"quick": False, "thorough": False}
 
 B62 = string.digits + string.ascii_uppercase + string.ascii_lowercase
 DEFAULT_ALPHABET = string.digits + string.ascii_uppercase
-K5 = "K5"
 NATIVE = "C13-native-literal"
 XSHAPE = "C13-cross-shape"
 
@@ -237,9 +236,22 @@ def gen_recipe(rng):
             "count": rng.randint(1, 6), "iterations": rng.randint(1, 4), "ctx0": _ctx0(rng)}
 
 
+def gen_separator_probe(randomize=True):
+    """16 generators `context,index` with context numbers 1..16, 72 draws each: if the separator between the
+    octal chunks were an octal digit d, (context 1, index 0o{d}1..) and (context 0o1{d}, index 1) would meet."""
+    n = 16
+    return {"kind": "gens", "ctx0": 1,
+            "gens": [{"type": "num", "template": "context,index", "pid": 3, "randomize": randomize, "start": 1}
+                     for _ in range(n)],
+            "schedule": [[gi, 72] for gi in range(n)],
+            "sample": {str(gi): [0, 1, 7, 8, 56, 57, 63, 64, 71] for gi in range(n)}}
+
+
 def generate(rng, tier):
     q = tier == "quick"
     cases = list(gen_scramble_edges())
+    cases.append(gen_separator_probe(True))
+    cases.append(gen_separator_probe(False))
     for _ in range(100 if q else 10000):
         cases.append(gen_scramble(rng))
     for _ in range(10 if q else 500):
@@ -851,7 +863,7 @@ def _recipe_sources(case):
     byname = {v["name"]: v for v in case["vars"]}
     big = bool(case["big"])
     dnum = ("PPid", "PContext", "PIndex") if big else ("PContext", "PIndex")
-    dalpha = ("PPid", "PContext", "PIndex") if big else ("PIndex",)
+    dalpha = ("PPid", "PContext", "PIndex") if big else ("PContext", "PIndex")   # since fix 73af7bb
     out = []
     for s in case["fields"]:
         if s in ("unique_id", "UniqueId.unique_id"):
@@ -894,21 +906,21 @@ def _native(code):
 
 
 def _recipe_failures(case, obs):
-    """(other_failures, k5_collisions, native_mangled, cross_shape_collisions)
-    K5 = collisions among alpha codes that all come from alpha generators created WITHOUT a template in
-    small-id mode.  native_mangled = (native-types recipes only) alpha field values that are not the code the
-    generator returned but the value of that code read as a Python literal."""
-    other, k5, mangled, xshape = [], [], [], []
+    """(other_failures, native_mangled, cross_shape_collisions)
+    native_mangled = (native-types recipes only) alpha field values that are not the code the generator
+    returned but the value of that code read as a Python literal.  cross_shape = equal values from generators
+    whose template shapes differ.  (The former K5 class — identical codes of default alpha generators in
+    small-id mode — was repaired by 73af7bb and is an ordinary failure again.)"""
+    other, mangled, xshape = [], [], []
     if "err" in obs:
         if obs["err"] == "DGE" and _min_bits_too_small(case):
-            return [], [], [], []     # scramble_number's own `assert minbits >= 10` (an error, not a collision)
-        return [f"recipe: a valid recipe failed with {obs['err']}"], [], [], []
+            return [], [], []     # scramble_number's own `assert minbits >= 10` (an error, not a collision)
+        return [f"recipe: a valid recipe failed with {obs['err']}"], [], []
     rows = obs["rows"]
     src = _recipe_sources(case)
     expected_rows = case["count"] * case["iterations"]
     if len(rows) < expected_rows:
         other.append(f"recipe: {len(rows)} rows instead of at least {expected_rows}")
-    small = not case["big"]
     # codes the alpha generators really returned (complete only if no generator was truncated)
     recorded, complete = [], bool(obs.get("instrumented"))
     for g in obs.get("gens", []):
@@ -955,15 +967,13 @@ def _recipe_failures(case, obs):
                     key = (abc, code)
                     if key in seen_alpha:
                         pri, pfi = seen_alpha[key]
-                        if small and s["default"] and src[pfi]["default"]:
-                            k5.append((code, (pri, pfi), (ri, fi)))
-                        elif src[pfi]["shape"] != s["shape"] or src[pfi]["rc"] != s["rc"]:
+                        if src[pfi]["shape"] != s["shape"] or src[pfi]["rc"] != s["rc"]:
                             xshape.append((code, (pri, pfi), (ri, fi)))
                         else:
                             other.append(f"recipe: alpha code {code!r} appears twice: row {pri} f{pfi} and "
                                          f"row {ri} f{fi}")
                     seen_alpha.setdefault(key, (ri, fi))
-    return other, k5, mangled, xshape
+    return other, mangled, xshape
 
 
 def oracle(case, obs):
@@ -1050,7 +1060,7 @@ def oracle(case, obs):
                     f"produced {v!r} (draws {ki} and {kj})")
         return None
     if kind == "recipe":
-        other, k5, mangled, xshape = _recipe_failures(case, obs)
+        other, mangled, xshape = _recipe_failures(case, obs)
         if other:
             return other[0]
         if xshape:
@@ -1062,10 +1072,6 @@ def oracle(case, obs):
             v, c, ri, fi = mangled[0]
             return (f"native-literal-class: snowfakery_version 3 emitted the alpha code {c!r} as {v!r} "
                     f"({type(v).__name__}) in row {ri} f{fi}; {len(mangled)} such values")
-        if k5:
-            code, a, b = k5[0]
-            return (f"K5-class: default alpha generators in small-id mode emitted {code!r} twice "
-                    f"(row {a[0]} f{a[1]} and row {b[0]} f{b[1]}); {len(k5)} such collisions")
         return None
 
 
@@ -1074,9 +1080,7 @@ def violation_class(case, obs, msg):
 
 
 def match_finding(case, obs, msg, findings):
-    """K5: a recipe in small-id mode whose ONLY failures are repeated codes among alpha generators that were
-    created without a template (unique_alpha_code / default UniqueId.AlphaCodeGenerator).
-    C13-cross-shape: a recipe whose ONLY failures (besides the classes above) are equal values from two generators
+    """C13-cross-shape: a recipe whose ONLY failures are equal values from two generators
     whose template shapes differ (e.g. `index,context` against the default `context,index`).
     C13-native-literal: a `snowfakery_version: 3` recipe whose ONLY failures are alpha field values that equal
     ast.literal_eval(code) of a code the generator really returned (and that code itself is fine)."""
@@ -1084,7 +1088,7 @@ def match_finding(case, obs, msg, findings):
     if case.get("kind") != "recipe" or not isinstance(msg, str):
         return None
     try:
-        other, k5, mangled, xshape = _recipe_failures(case, obs)
+        other, mangled, xshape = _recipe_failures(case, obs)
     except Exception:
         return None
     if other:
@@ -1093,8 +1097,6 @@ def match_finding(case, obs, msg, findings):
         return XSHAPE
     if msg.startswith("native-literal-class") and NATIVE in ids and case.get("native") and mangled and not xshape:
         return NATIVE
-    if msg.startswith("K5-class") and K5 in ids and not case.get("big") and k5 and not mangled and not xshape:
-        return K5
     return None
 
 
